@@ -337,6 +337,9 @@ class Calls(Exec):
         if cc is None or not cc.captures:
             raise Unsupported('closure %s passed as callback has no contract (captures / closure_invariant)' % ckey, node)
         outer_frame = st.frames[fv.what[2]]
+        # the callee's ghost state starts from its initial values
+        for g, (GT, init) in c.ghost.items():
+            outer_frame.loc[g] = self.coerce(st, self.eval_spec_value(st, init, fr), parse_type(GT), node, 'ghost ' + g)
         for inv in cc.closure_invariant:
             self.prove(st, self.eval_spec(st, inv, outer_frame, old=st.old), 'closure-init', node, '%s: %s' % (ckey.split('.<locals>.')[-1], inv))
         # (2) callee's callback contract  =>  closure's requires, for arbitrary callback arguments
@@ -354,10 +357,17 @@ class Calls(Exec):
             vals.append(self.make_fresh(s2, parse_type(T), n))
         cal_fr = fr.copy()
         cal_fr.loc.update(zip(c.callback['args'], vals))
+        # ghost state of the callee is shared with the closure (captured under the same name)
+        ghosts = {}
+        for g, (GT, init) in c.ghost.items():
+            ghosts[g] = self.make_fresh(s2, parse_type(GT), g)
+        cal_fr.loc.update(ghosts)
+        of2 = s2.frames[fv.what[2]]
+        of2.loc.update(ghosts)
         for r in c.callback['requires']:
             s2.assume(self.eval_spec(s2, r, cal_fr, assume=True))
         for inv in cc.closure_invariant:
-            s2.assume(self.eval_spec(s2, inv, outer_frame, old=st.old, assume=True))
+            s2.assume(self.eval_spec(s2, inv, of2, old=st.old, assume=True))
         clo_fr = Frame(m2, ckey, parent=fv.what[2])
         clo_fr.loc.update(zip(names, vals))
         # evaluate the closure's requires in a frame whose parent is the defining frame
@@ -365,7 +375,7 @@ class Calls(Exec):
             s3 = s2.fork()
             g = self.eval_spec_in_closure(s3, r, clo_fr)
             self.prove(s3, g, 'callback-pre', node, '%s requires %s' % (ckey.split('.<locals>.')[-1], r))
-        return (cc, fv.what[2])
+        return (cc, fv.what[2], c)
 
     def eval_spec_in_closure(self, st, expr, clo_fr):
         tree = self.parse_spec(expr)
@@ -379,10 +389,12 @@ class Calls(Exec):
 
     def callback_closure_havoc(self, st, cb, node):
         "the callee may run the closure any number of times: captured state is havocked up to its invariant"
-        cc, frame_idx = cb
+        cc, frame_idx, callee = cb
         outer_frame = st.frames[frame_idx]
         for mexpr in cc.modifies:
             self.havoc_target(st, mexpr, outer_frame, node)
+        for g, (GT, init) in callee.ghost.items():
+            outer_frame.loc[g] = self.make_fresh(st, parse_type(GT), g)
         for inv in cc.closure_invariant:
             st.assume(self.eval_spec(st, inv, outer_frame, old=st.old, assume=True))
 
